@@ -33,11 +33,12 @@ TOK = re.compile(r"\[([^\[\]]+)\]")
 DEFAULT_PROFILE = dict(
     ndefs=(1, 3), depth=3, suite=(1, 3), def_depth=2,
     w=dict(text=3, mark=4, expr=4, callc=3, block=1, inc=0, **{"if": 2, "for": 2, "while": 1, "try": 2, "with": 1,
-                                                                 "py": 1, "ret": 1, "brk": 1, "cont": 1}),
+                                                                 "py": 1, "ret": 1, "brk": 1, "cont": 1, "textf": 1}),
     flags=[[], [], ["buffered"], ["filter"], ["buffered", "filter"]],
     p_dec=0.2, p_params=0.6, p_bad_args=0.04, p_rl=0.6, p_loopcond=0.3, p_nested_def=0.25, p_calldefs=0.3,
     p_bparams=0.35, p_empty=0.08, ret_in_flagged=False, loop_in_body_under_for=False, eh=0.0, nincs=(0, 0), p_ieh=0.5,
     p_unbound=0.1, p_amark=0.3, p_fm=0.5, p_dm=0.5, p_cmark=0.25,
+    eh_modes=["true"], ieh_modes=["true"], xcs=["boom"], p_inh=0.0, p_lk=0.0, routes=["context"],
 )
 
 
@@ -48,6 +49,18 @@ def profile(**over):
     if w:
         p["w"].update(w)
     return p
+
+
+def hmode(v):
+    """handler outcome of a program: none / true / false / raise (booleans from hand-written programs accepted)."""
+    if v is True:
+        return "true"
+    if not v:
+        return "none"
+    return v
+
+
+XB = {"boom": True, "stopiter": True, "abort": False, "sysexit": False, "kbint": False}
 
 
 class Ctx:
@@ -220,7 +233,7 @@ class Gen:
                 return out
             n = r.randint(*self.p["suite"])
         for _ in range(n):
-            kinds = ["text", "mark", "expr", "py"]
+            kinds = ["text", "mark", "expr", "py", "textf"]
             if depth > 0:
                 kinds += ["callc", "block", "inc", "if", "for", "while", "try", "with"]
             if ctx.ret_ok:
@@ -252,6 +265,9 @@ class Gen:
         if v not in ctx.vars:
             ctx.vars.append(v)
         return dict(k="py", v=v, t="t%d" % self.nid())
+
+    def g_textf(self, ctx, depth):
+        return dict(k="textf", t="t%d" % self.nid(), fm=(self.nid() if self.rng.random() < self.p["p_fm"] else 0))
 
     def g_ret(self, ctx, depth):
         return dict(k="ret")
@@ -391,15 +407,30 @@ class Gen:
         for i in range(self.nincs):
             c = Ctx([], tmpl=i + 1)
             c.pk = {}
-            incs.append(dict(body=self.gen_suite(c, max(self.p["depth"] - 1, 1)), ieh=r.random() < self.p["p_ieh"]))
+            incs.append(dict(body=self.gen_suite(c, max(self.p["depth"] - 1, 1)),
+                             ieh=r.choice(self.p["ieh_modes"]) if r.random() < self.p["p_ieh"] else "none"))
         c = Ctx(names)
         c.pk = {}
         body = self.gen_suite(c, self.p["depth"])
         prog = dict(defs=self.defs, incs=incs, body=body)
         if cost_of(prog) > self.p.get("max_cost", 350):
             return self.gen_prog()
-        eh = r.random() < self.p["eh"]
-        return dict(defs=self.defs, incs=incs, body=body, eh=eh, fe=(not eh and r.random() < self.p.get("fe", 0.0)), top=names, el="on")
+        eh = r.choice(self.p["eh_modes"]) if r.random() < self.p["eh"] else "none"
+        xc = r.choice(self.p["xcs"])
+        out = dict(defs=self.defs, incs=incs, body=body, eh=eh, top=names, el="on", xc=xc, route=r.choice(self.p["routes"]),
+                   fe=(eh == "none" and XB[xc] and r.random() < self.p.get("fe", 0.0)),
+                   lk=(r.random() < self.p["p_lk"] and len({t["ieh"] for t in incs}) <= 1), inh=False, base=[])
+        if r.random() < self.p["p_inh"]:
+            # an inherited template: the base body runs first and renders this body through ${next.body()}
+            c = Ctx([], tmpl=-1)
+            base = self.gen_suite(c, 2, n=r.randint(1, 3))
+            nb = dict(k="nextbody")
+            pos = r.randrange(len(base) + 1)
+            if r.random() < .4:
+                nb = dict(k="try", a=[nb], h=[dict(k="text", t="t%d" % self.nid()), dict(k="mark", m=self.nid(), rl=False, w="s")])
+            base.insert(pos, nb)
+            out.update(inh=True, base=base)
+        return out
 
 
 def cost_of(p):
@@ -478,6 +509,7 @@ def walk_prog(p, fn):
         walk(d["body"], fn, ("def:" + key,))
     for i, t in enumerate(p["incs"]):
         walk(t["body"], fn, ("inc%d" % (i + 1),))
+    walk(p.get("base") or [], fn, ("base",))
     walk(p["body"], fn, ("top",))
 
 
@@ -519,7 +551,7 @@ TLA_KEYS = {  # fields of each record kind that the spec reads
     "call": ("k", "d", "via", "args"), "cap": ("k", "d", "args"), "cbody": ("k", "args"),
     "callc": ("k", "parts", "body", "bparams", "defs"), "block": ("k", "d"), "inc": ("k", "t"),
     "if": ("k", "arms", "els"), "for": ("k", "n", "sized", "a", "els", "im"), "while": ("k", "n", "a", "cm"), "try": ("k", "a", "h"),
-    "with": ("k", "t1", "t2", "a", "cm"), "py": ("k", "v", "t"), "ret": ("k",), "brk": ("k",), "cont": ("k",),
+    "with": ("k", "t1", "t2", "a", "cm"), "py": ("k", "v", "t"), "ret": ("k",), "brk": ("k",), "cont": ("k",), "textf": ("k", "t", "fm"), "nextbody": ("k",),
 }
 
 
@@ -555,9 +587,10 @@ def tla_def(d):
 
 def tla_prog(p):
     defs = "[" + ", ".join("%s |-> %s" % (k, tla_def(d)) for k, d in p["defs"].items()) + "]" if p["defs"] else "[zz \\in {} |-> 0]"
-    incs = tla([dict(body=t["body"], ieh=t["ieh"]) for t in p["incs"]])
-    return "[defs |-> %s, incs |-> %s, body |-> %s, eh |-> %s, fe |-> %s, el |-> %s]" % (
-        defs, incs, tla(p["body"]), tla(bool(p["eh"])), tla(bool(p.get("fe"))), tla(p.get("el", "on")))
+    incs = tla([dict(body=t["body"], ieh=hmode(t["ieh"])) for t in p["incs"]])
+    return "[defs |-> %s, incs |-> %s, body |-> %s, eh |-> %s, fe |-> %s, el |-> %s, xb |-> %s, inh |-> %s, base |-> %s]" % (
+        defs, incs, tla(p["body"]), tla(hmode(p["eh"])), tla(bool(p.get("fe"))), tla(p.get("el", "on")),
+        tla(XB[p.get("xc", "boom")]), tla(bool(p.get("inh"))), tla(p.get("base") or []))
 
 
 INVARIANTS = ["StackDiscipline", "LoopStackMatchesNesting", "Balanced", "NextCallerOnlyAroundCalls", "BufferRestored",
@@ -896,9 +929,15 @@ class Conc:
         if k == "block":
             d = self.p["defs"][s["d"]]
             attr = (' filter="Fm(context, %d)"' % d["fm"]) if "filter" in d["flags"] else ""
+            if "buffered" in d["flags"]:
+                attr += ' buffered="True"' 
             return "<%%block%s>\n%s</%%block>\n" % (attr, self.suite(d["body"]))
         if k == "inc":
             return '<%%include file="inc%d"/>\n' % s["t"]
+        if k == "nextbody":
+            return "${next.body()}\n"
+        if k == "textf":
+            return '<%%text filter="Fm(context, %d)">[%s]</%%text>\n' % (s["fm"], s["t"])
         if k == "if":
             o = ""
             for i, arm in enumerate(s["arms"]):
@@ -947,7 +986,12 @@ class Conc:
         page = ""
         if p.get("el") == "page":
             page = '<%page enable_loop="True"/>\n'
-        out["main"] = page + MODULE_BLOCK + "".join(self.def_text(k) for k in p["top"]) + self.suite(p["body"])
+        inh = '<%inherit file="base"/>\n' if p.get("inh") else ""
+        out["main"] = page + inh + MODULE_BLOCK + "".join(self.def_text(k) for k in p["top"]) + self.suite(p["body"])
+        if p.get("inh"):
+            self.cur_tmpl = -1
+            out["base"] = MODULE_BLOCK + self.suite(p["base"])
+            self.cur_tmpl = 0
         for i, t in enumerate(p["incs"]):
             self.cur_tmpl = i + 1
             out["inc%d" % (i + 1)] = MODULE_BLOCK + self.suite(t["body"])
@@ -956,6 +1000,18 @@ class Conc:
 
 # =========================================================================== execution on real Mako
 class Boom(Exception):
+    pass
+
+
+class Abort(BaseException):
+    """an application's own abort class: BaseException only, required constructor argument, payload."""
+
+    def __init__(self, code):
+        super().__init__(code)
+        self.payload = code
+
+
+class Other(Exception):
     pass
 
 
@@ -990,31 +1046,66 @@ class Executor:
         except Exception as e:  # noqa -- compile errors are observations, not crashes
             self.err = "exc:" + type(e).__name__
 
+    def _handler(self, tok, mode):
+        ex = self
+
+        def h(context, error):
+            context.write("[%s]" % tok)
+            if mode == "raise":
+                ex.other = Other("raised by the handler")
+                raise ex.other
+            return True if mode == "true" else ex.falsy
+        return h
+
     def _build(self):
         from mako.lookup import TemplateLookup
         from mako.template import Template
-        lk = TemplateLookup()
-        ex = self
-
-        def ieh(context, error):
-            context.write("[ieh]")
-            return True
-
-        def eh(context, error):
-            context.write("[eh]")
-            return True
-        for i, t in enumerate(self.prog["incs"]):
-            uri = "inc%d" % (i + 1)
-            kw = {"include_error_handler": ieh} if t["ieh"] else {}
-            lk.put_template(uri, Template(self.texts[uri], lookup=lk, uri=uri, **kw))
-        kw = {"error_handler": eh} if self.prog["eh"] else {}
-        if self.prog.get("el", "on") != "on":
-            kw["enable_loop"] = False
-        if self.prog.get("fe"):
-            kw["format_exceptions"] = True
-        self.main = Template(self.texts["main"], lookup=lk, uri="main", **kw)
-        lk.put_template("main", self.main)
+        p = self.prog
+        self.falsy = [False, None, 0][len(p["body"]) % 3]
+        self.xcls = {"boom": Boom, "abort": Abort, "sysexit": SystemExit, "kbint": KeyboardInterrupt, "stopiter": StopIteration}[p.get("xc", "boom")]
+        eh = hmode(p["eh"])
+        main_kw = {}
+        if p.get("el", "on") != "on":
+            main_kw["enable_loop"] = False
+        if p.get("fe"):
+            main_kw["format_exceptions"] = True
+        if p.get("lk"):
+            # handlers and options given to the TemplateLookup, templates created by the lookup
+            lkw = dict(main_kw)
+            if eh != "none":
+                lkw["error_handler"] = self._handler("eh", eh)
+            modes = {hmode(t["ieh"]) for t in p["incs"]}
+            if modes and modes != {"none"}:
+                lkw["include_error_handler"] = self._handler("ieh", modes.pop())
+            lk = TemplateLookup(**lkw)
+            for uri in sorted(self.texts):
+                lk.put_string(uri, self.texts[uri])
+            self.main = lk.get_template("main")
+        else:
+            lk = TemplateLookup()
+            for i, t in enumerate(p["incs"]):
+                uri = "inc%d" % (i + 1)
+                kw = {"include_error_handler": self._handler("ieh", hmode(t["ieh"]))} if hmode(t["ieh"]) != "none" else {}
+                lk.put_template(uri, Template(self.texts[uri], lookup=lk, uri=uri, **kw))
+            if p.get("inh"):
+                lk.put_template("base", Template(self.texts["base"], lookup=lk, uri="base"))
+            if eh != "none":
+                main_kw["error_handler"] = self._handler("eh", eh)
+            self.main = Template(self.texts["main"], lookup=lk, uri="main", **main_kw)
+            lk.put_template("main", self.main)
         compile(self.main.code, "main", "exec")
+
+    def _plant(self):
+        c = self.prog.get("xc", "boom")
+        if c == "abort":
+            return Abort(41)
+        if c == "sysexit":
+            return SystemExit(3)
+        if c == "kbint":
+            return KeyboardInterrupt()
+        if c == "stopiter":
+            return StopIteration("planted")
+        return Boom("planted")
 
     def _mk(self, context, m, caller, loop, w="s"):
         self.cnt += 1
@@ -1054,8 +1145,10 @@ class Executor:
         except Exception as e:  # noqa
             o["err"] = "exc:" + type(e).__name__
         self.obs.append(o)
+        self.lastctx = context
         if self.cnt == self.raise_at:
-            self.boom = Boom("planted")
+            self.boom = self._plant()
+            self.boom_args = self.boom.args
             raise self.boom
         return ""
 
@@ -1078,34 +1171,68 @@ class Executor:
                 yield None
             finally:
                 context.write(t2)
-        data = dict(mk=self._mk, Boom=Boom, cm=cm)
+        data = dict(mk=self._mk, Boom=self.xcls, cm=cm)
         if self.prog.get("el", "on") == "off":
             data["loop"] = "ctxloop"
-        ctx = Context(buf, **data)
-        ctx._outputting_as_unicode = True
+        route = self.prog.get("route", "context")
+        self.other = None
+        self.lastctx = None
+        ctx = None
+        text = None
+        if route == "context":
+            ctx = Context(buf, **data)
+            ctx._outputting_as_unicode = True
         same = True
         old = signal.signal(signal.SIGALRM, _alarm)
         signal.setitimer(signal.ITIMER_REAL, 10)
         try:
             try:
-                self.main.render_context(ctx)
+                if route == "context":
+                    self.main.render_context(ctx)
+                elif route == "unicode":
+                    text = self.main.render_unicode(**data)
+                else:
+                    text = self.main.render(**data)
                 res = "ok"
-            except Boom as e:
-                res = "exc:boom"
-                same = e is self.boom
-            except TypeError:
-                res = "exc:type"
-            except UnboundLocalError:
-                res = "exc:unbound"
             except (Runaway, _Timeout):
                 res = "exc:Runaway"
-            except Exception as e:  # noqa
-                res = "exc:" + type(e).__name__
+            except BaseException as e:  # noqa -- every class is an observation
+                if e is self.boom:
+                    res = "exc:boom"
+                    same = e.args == self.boom_args and (not isinstance(e, SystemExit) or e.code == 3) \
+                        and (not isinstance(e, Abort) or e.payload == 41)
+                elif self.other is not None and e is self.other:
+                    res = "exc:other"
+                elif self.boom is not None and type(e) is type(self.boom):
+                    res = "exc:boom"        # same class, but not the object that was raised
+                    same = False
+                elif isinstance(e, UnboundLocalError):
+                    res = "exc:unbound"
+                elif isinstance(e, TypeError):
+                    res = "exc:type"
+                else:
+                    res = "exc:" + type(e).__name__
         finally:
             signal.setitimer(signal.ITIMER_REAL, 0)
             signal.signal(signal.SIGALRM, old)
-        o = {"res": res, "obs": self.obs, "same": same}
+        o = {"res": res, "obs": self.obs, "same": same, "after": True, "fb": None, "fc": None, "fnc": None, "out": None}
         try:
+            if route != "context":
+                c2 = self.lastctx
+                if c2 is not None and res != "ok":
+                    o["fb"], o["fc"], o["fnc"] = len(c2._buffer_stack), len(c2.caller_stack), c2.caller_stack.nextcaller is not None
+                if text is not None:
+                    if isinstance(text, bytes):
+                        text = text.decode("utf-8", "replace")
+                    if self.prog.get("fe") and "Mako Runtime Error" in text:
+                        o["res"] = "page"
+                        o["out"] = ["ERRPAGE"]
+                    else:
+                        o["out"] = TOK.findall(text)
+                        stray = set(TOK.sub("", text)) - set("xy \n\t")
+                        if stray:
+                            o["out"] = o["out"] + ["stray-output:" + "".join(sorted(stray))[:20]]
+                return o
             o["fb"] = len(ctx._buffer_stack)
             o["fc"] = len(ctx.caller_stack)
             o["fnc"] = ctx.caller_stack.nextcaller is not None
@@ -1114,7 +1241,6 @@ class Executor:
                 page = ctx._buffer_stack[0].getvalue()
                 o["res"] = "page"
                 o["out"] = ["ERRPAGE"] if "Mako Runtime Error" in page else ["not-an-error-page"]
-                o["after"] = True
             else:
                 before = buf.getvalue()
                 ctx.write("[after]")
@@ -1146,9 +1272,9 @@ def compare(exp, got, eh=False):
                 return ("obs." + f, e["m"], "mark #%d (id %s): expected %s=%s, observed %s" % (i + 1, e["m"], f, e[f], g[f]))
     if len(eo) != len(go):
         return ("obs.count", None, "expected %d marks executed, observed %d" % (len(eo), len(go)))
-    if exp["out"] != got["out"]:
+    if got["out"] is not None and exp["out"] != got["out"]:
         return ("out", None, "expected output tokens %s, observed %s" % (exp["out"], got["out"]))
-    if (exp["fb"], exp["fc"], exp["fnc"]) != (got["fb"], got["fc"], got["fnc"]):
+    if got["fb"] is not None and (exp["fb"], exp["fc"], exp["fnc"]) != (got["fb"], got["fc"], got["fnc"]):
         return ("final", None, "after render_context: expected (buffers, callers, nextcaller)=%s, observed %s"
                 % ((exp["fb"], exp["fc"], exp["fnc"]), (got["fb"], got["fc"], got["fnc"])))
     if not got["after"]:
@@ -1165,8 +1291,9 @@ DEVIATIONS = {"ReturnDropsBuffer": "return-in-buffered-or-filtered-def-drops-out
 def standalone(prog, raise_at):
     """text of a small standalone script reproducing one execution (for replay files)."""
     texts = Conc(prog, None, plain=True).templates()
-    return {"templates": texts, "raise_at_kth_marker": raise_at, "error_handler": bool(prog["eh"]), "format_exceptions": bool(prog.get("fe")),
-            "include_error_handlers": [bool(t["ieh"]) for t in prog["incs"]]}
+    return {"templates": texts, "raise_at_kth_marker": raise_at, "error_handler": hmode(prog["eh"]), "format_exceptions": bool(prog.get("fe")),
+            "include_error_handlers": [hmode(t["ieh"]) for t in prog["incs"]], "exception_class": prog.get("xc", "boom"),
+            "route": prog.get("route", "context"), "handlers_on_lookup": bool(prog.get("lk"))}
 
 
 def check_batch(run, progs, maxraise, name, signature_of=None, coverage=False, workers=None, need_actions=()):
